@@ -19,7 +19,7 @@ FUNNEL = {'RejectError', 'TerminateError'}
 def check(chk, thorough=False):
     tree = chk.tree
     chk.run('C17.a', 'R-ESCAPE', 'no exception escapes an event-loop callback on peer-chosen input (explicit raises, unguarded lookups by peer ids, re-raised decode errors)', lambda ob: c17a(tree, ob), floor=6)
-    chk.run('C17.a2', 'R-ESCAPE', 'SESS_TERM sends reachable from callbacks have their preconditions established (= C09.e)', lambda ob: c09e(tree, ob), floor=3)
+    chk.run('C17.a2', 'R-ESCAPE', 'SESS_TERM sends reachable from callbacks have their preconditions established (= C09.e)', lambda ob: c09e(tree, ob, user_entry=False), floor=3)
     chk.run('C17.b', 'R-SCHEMA', 'every bound message type has a dispatch arm, unknown types are rejected, base handlers reject outside a session and overrides call them first', lambda ob: c17b(tree, ob), floor=12)
     chk.run('C17.c', 'R-SCHEMA', 'every keyword used to build a message and every field read from a dispatched message is a field of that message class', lambda ob: c17c(tree, ob), floor=15)
     chk.run('C17.d', 'R-ORDER', 'no delivery from mismatched transfers (= C01.d) and each START begins with fresh receive state', lambda ob: (c01d(tree, ob), c17d(tree, ob)), floor=9)
